@@ -535,6 +535,9 @@ class Guard:
             sub.run_value(callee["body"], inp)
         except Unclassified as e:
             from .facts import walk as _walk
+            import os as _os
+            if _os.environ.get("C04_DEBUG"):
+                print("C04_DEBUG try_helper %s: %s" % (callee["d"]["name"], e))
             numeric = False
             for y in _walk(callee["body"]):
                 if y.get("k") == "Binary" and y["op"] in ("<", "<=", ">", ">=") and any(z.get("k") == "Path" and z.get("name") == "self" for z in _walk(y)):
@@ -546,7 +549,30 @@ class Guard:
             # a helper without range tests on the parameters (it compiles a regex, fills a cache): its own fallible calls
             # are the opaque sub-checks
             self.effect(callee["body"])
+            # a cache that is keyed by the parameter it was computed from (`cached.text() == self.expr` decides whether the
+            # fallible step is repeated) does not make the verdict depend on state: the step is skipped only when its
+            # outcome for this very parameter value is already known
+            _lets = {}
             for y in _walk(callee["body"]):
+                if y.get("k") == "LetStmt" and y.get("init") is not None and y["pat"].get("k") == "Bind":
+                    _lets[y["pat"]["local"]] = y["init"]
+            keyed = False
+            for y in _walk(callee["body"]):
+                if y.get("k") == "Binary" and y["op"] == "==":
+                    flds = set()
+                    for side in (y["l"], y["r"]):
+                        for z in _walk(side):
+                            zz = [z]
+                            if z.get("k") == "Path" and z.get("local") in _lets:
+                                zz = list(_walk(_lets[z["local"]]))
+                            for w in zz:
+                                if w.get("k") == "Field" and peel_refs(w["e"]).get("k") == "Path" and peel_refs(w["e"]).get("name") == "self":
+                                    tyw = self.c.ty(w.get("t")) or ""
+                                    if "Option<" not in tyw and "RefCell<" not in tyw and tyw != "bool":
+                                        flds.add(w["name"])
+                    if flds:
+                        keyed = True
+            for y in (_walk(callee["body"]) if not keyed else []):
                 if y.get("k") == "Field" and (self.c.ty(y.get("t")) or "") == "bool":
                     py = sub.path_of(y)
                     if py is not None:
